@@ -266,7 +266,8 @@ class TwistedEventLoop(EventLoop):
                     self.reactor.stop()
             except BaseException as exc:
                 print(sys.exc_info())
-                self._exc = exc
+                if self._exc is None:  # callbacks already due still run: report the first exception
+                    self._exc = exc
                 if self.manage_reactor:
                     self.reactor.crash()
             if enable_idle:
